@@ -171,17 +171,19 @@ def _move(run, P):
                 tmpl = string_value(a.func.value)
                 kws = {k.arg: norm(k.value) for k in a.keywords}
                 events.append((tmpl, kws))
-    ok = len(events) >= 4 and events[0] == "deinit:assignee_sym"
+    sym, fname, src = f.arg(0), f.arg(1), f.arg(3)
+    ok = len(events) >= 4 and events[0] == "deinit:" + sym
     if ok:
         e1, e2, e3 = events[1], events[2], events[3]
         ok = isinstance(e1, tuple) and e1[0] == "{name} => {expr}" \
-            and e1[1].get("name") == "assignee_fortran_name" \
-            and "expr.name" in e1[1].get("expr", "") \
+            and e1[1].get("name") == fname \
+            and f"{src}.name" in e1[1].get("expr", "") \
             and isinstance(e2, tuple) and e2[0] == "{tgt_refcnt} => {refcnt}" \
-            and "name_refcount(assignee_sym)" in e2[1].get("tgt_refcnt", "") \
-            and "name_refcount(expr.name)" in e2[1].get("refcnt", "") \
+            and f"name_refcount({sym})" in e2[1].get("tgt_refcnt", "") \
+            and f"name_refcount({src}.name)" in e2[1].get("refcnt", "") \
             and isinstance(e3, tuple) and e3[0] == "{tgt_refcnt} = {tgt_refcnt} + 1" \
-            and "name_refcount(assignee_sym)" in e3[1].get("tgt_refcnt", "")
+            and f"name_refcount({sym})" in e3[1].get("tgt_refcnt", "")
+    events = [e.replace(":" + sym, ":<assignee>") if isinstance(e, str) else e for e in events]
     # every emission happens on every path (no operand-dependent skip)
     g = CFG(f.node)
     emit_nodes = [n for n in g.nodes if n.kind == "stmt" and n.ast is not None and any(
@@ -242,7 +244,7 @@ def _alloc(run, P):
         for x in walk_fragment(n.ast))]
     loop_ok = False
     for n in ast.walk(f2.node):
-        if isinstance(n, ast.For) and dotted(n.iter) == "inst.assignees" and any(
+        if isinstance(n, ast.For) and dotted(n.iter) == f"{f2.arg(0)}.assignees" and any(
                 isinstance(x, ast.Call) and dotted(x.func) == "self.emit_allocation_check"
                 for x in ast.walk(n)):
             ln = g2.node_of(n)
@@ -512,7 +514,7 @@ def _lastuse(run, P):
         m = P.func(f"{GEN}.{name}")
         from .util import last_effective
         le = last_effective(m.node.body)
-        ok = le is not None and ast.unparse(le) == "self.emit_deinit_for_last_usage_of_vars(inst)"
+        ok = le is not None and ast.unparse(le) == f"self.emit_deinit_for_last_usage_of_vars({m.arg(0)})"
         run.ob("C12.lastuse", m, m.node, ok,
                construct=f"{name}: release at last use is the last thing emitted",
                why="released before the statement's own code the operands are gone")
@@ -626,8 +628,11 @@ def _allocatable(run, P):
         f = c.methods.get("is_allocatable")
         if f is None:
             continue
-        comps = [a for a in (c.methods["__init__"].params[1:] if "__init__" in c.methods else [])
-                 if a in ("element_type", "pointee_type", "members")]
+        # component attributes, in the order the constructor stores them
+        comps = [t.attr for s_ in (ast.walk(c.methods["__init__"].node) if "__init__" in c.methods else [])
+                 if isinstance(s_, ast.Assign) for t in s_.targets
+                 if isinstance(t, ast.Attribute) and dotted(t.value) == "self"
+                 and t.attr in ("element_type", "pointee_type", "members")]
         rets = [r for r in ast.walk(f.node) if isinstance(r, ast.Return) and r.value is not None]
         src = " ; ".join(norm(r.value) for r in rets)
         const = len(rets) == 1 and isinstance(rets[0].value, ast.Constant) \
